@@ -220,6 +220,15 @@ theorem c01_call_empty_args_binds_formally :
     Wit.callEmptyArgs.accepted = true ∧
     Wit.firstXCycle Wit.callEmptyArgs = (none, [("d", .i .dint 5)], 0) := by decide +kernel
 
+/-- **Counterexample (initialisers of frame-local declarations are never checked).**  The
+FUNCTION local `lt0 : DINT := nosuch` is accepted — the checker does not look at initialisers —
+and every call faults with `UndefinedVariable` (static class) in `init_locals`; the frame of the
+call is popped (`frames = 0`). -/
+theorem c01_counterexample_local_init_undefined :
+    Wit.localInitUndefined.accepted = true ∧
+    Wit.firstXCycle Wit.localInitUndefined =
+      (some (.fault .UndefinedVariable .readName), [("d", .i .dint 0)], 0) := by decide +kernel
+
 /-- The full-strength statement over the accepted set does not hold of the model of the code as
 it is. -/
 theorem c01_full_statement_false :
